@@ -222,7 +222,9 @@ prop(
     module="Aquatic.Props.C08",
     extra_modules=["Aquatic.Props.WsStore"],
     technique="Lean 4 refinement proof (induction over histories of announce / scrape / close / clean: swarm store with cached seeder counts and IndexMap order + the socket worker's per-connection records refine a flat reference tracker with per-entry ownership) + differential correspondence against the real aquatic_ws TorrentMaps",
-    runs=[dict(harness="wsstore", driver="wsstore", quick=dict(cases=500, maxops=60), thorough=dict(cases=30000, maxops=140))],
+    runs=[dict(harness="wsstore", driver="wsstore", quick=dict(cases=500, maxops=60), thorough=dict(cases=30000, maxops=140)),
+          # the close notice is put together by the real socket worker: only a running tracker shows what it contains
+          dict(harness="wsnet", driver="wsstore", quick=dict(cases=6), thorough=dict(cases=40, burst=600))],
     nontrivial=WS_NONTRIV,
     level_text="Machine-checked refinement theorem: for every history of announces (all events, left absent / 0 / positive, offers, answers), scrapes, connection closures and cleaning passes, from any connections (socket worker id x slot key), with every in-range outcome of the random draws, the model never reaches a panic outcome (no counter underflow) and each operation's messages are those of the reference tracker: one entry per (torrent, peer id), owned by the connection that created it; announce counts include the announcer; stopped removes; left = 0 is a seeder; an announce under a peer id stored by another connection is ignored with no reply and no effect, also when that connection later closes; closing removes exactly the connection's own entries (proved on the model: every other peer and its outstanding offers are unchanged); a scrape lists every requested torrent with stored peers with the reference's counts and nothing else but zero counts. Tie: generated histories on the real TorrentMaps (handle_announce_request / handle_scrape_request / handle_connection_closed / clean) with coinciding slot keys across socket workers, shared peer ids, every order of announces and closures; every message compared with the model (for SOME in-range draws) and with the reference.",
     level_note="Trusted: Lean kernel; hand-written model (fidelity checked by sampled differential runs); the harness plays the socket worker (announced_info_hashes record, gate, close) - that emulation is compared with the model's on every close and with the real socket worker by the C17 socket-level runs. One address family is modelled (the two TorrentMaps are independent).",
